@@ -289,7 +289,7 @@ for nm, kind, tiers in [("c06_legacy_unsigned_nochain", "legacy", (T,)), ("c06_l
                         ("c06_legacy_signed_nochain", "legacy", (T,)), ("c06_legacy_signed_chain", "legacy", (Q, T)),
                         ("c06_eip2930_unsigned", "eip2930", (T,)), ("c06_eip2930_signed", "eip2930", (Q, T)),
                         ("c06_eip1559_unsigned", "eip1559", (Q, T)), ("c06_eip1559_signed", "eip1559", (Q, T))]:
-    H(nm, "transaction", ["C06", "C11", "C17"], tiers=tiers, timeout=2400, mem_gb=(40 if nm in ("c06_eip2930_signed", "c06_eip1559_signed", "c06_eip1559_unsigned") else 14),
+    H(nm, "transaction", ["C06", "C11", "C17"], tiers=tiers, timeout=2400, mem_gb=(40 if nm in ("c06_eip2930_signed", "c06_eip1559_signed", "c06_eip1559_unsigned") else 24 if nm == "c06_eip2930_unsigned" else 14),
       functions=["transaction::" + C06_SPECS[kind][0], "transaction::rlp::{iter,list,len} (real)",
                  "account::Signature::{v,r,s,y_parity} (real)"],
       inputs="every U256 field: all 2^256 values; recipient present/absent with 20 symbolic bytes; 3 symbolic data bytes; "
@@ -558,6 +558,16 @@ H("c13_prim_f64_small", "serialization", ["C13", "C09", "C17"], tiers=(T,), time
   functions=["serialization::num::deserialize::<serde::de::value::F64Deserializer<serde_json::Error>> (not the production instantiation)"],
   inputs="f = +k or -k as f64 for every k in 0..=255", bound="|f| <= 255, integral",
   spec="non-negative: Ok(k); negative (except -0.0): Err")
+
+# Leaf contracts that the structure claims of C06 and C11 are composed with (assume-guarantee): the checks of C06 and C11
+# run them too, so that a change that breaks the byte-exact statement only through a leaf encoder (seeded C06-1, C11-3) is
+# reported under those properties as well.
+for _h in HARNESSES:
+    if _h["name"] in ("c07_len", "c07_bytes_055", "c07_bytes_056", "c07_bytes_symlen", "c07_list_20_20_15", "c07_list_21_20_15",
+                      "c07_bytes_001", "c07_iter_1_33_21") and "C06" not in _h["props"]:
+        _h["props"].append("C06")
+    if _h["name"] in ("c07_uint", "c07_bytes_001", "c07_bytes_symlen") and "C11" not in _h["props"]:
+        _h["props"].append("C11")
 
 # ================================================================================================ tiers
 # The quick tier is restricted to queries that were measured to finish in seconds to a few minutes on the pinned tree
